@@ -38,7 +38,64 @@ def run(prog, an, rep):
     rep.run_rules(prog, an, [
         lookup_rules, ranking_rules, outcome_table, early_exits,
         bypass_helper, exception_families, build_gate, pushed_before_lookup,
-        integration_vector, tips_refreshed, per_author, in_sync_pairs])
+        integration_vector, tips_refreshed, per_author, in_sync_pairs,
+        skew_rules])
+
+
+def skew_rules(prog, an, rep):
+    """The gate reads the build of the tips Bert-E has in its clone.  When
+    the integration pull request names another commit, the clone's tip is
+    kept only if it contains that commit (the host is late); otherwise
+    somebody pushed meanwhile and the evaluation stops.  Asking whether the
+    branch contains its own tip is always true: an outdated clone would be
+    gated on superseded commits."""
+    R = 'C06.MPT.skew'
+    f = need_func(an, GWF + '.check_pull_request_skew')
+    c = an.cfg(f)
+    stores = [n for n in c.nodes.values() if n.kind == 'stmt' and
+              isinstance(n.ast, ast.Assign) and any(
+                  isinstance(t, ast.Attribute) and t.attr == 'src_commit'
+                  for t in n.ast.targets)]
+    raises = [n for n in c.nodes.values() if n.kind == 'raise_stmt' and
+              (raise_class(an, f, n.ast) or '').endswith(
+                  '.PullRequestSkewDetected')]
+    rep.floor('C06 skew outcomes (adopt the local tip / stop)',
+              min(len(stores), len(raises)), 1)
+
+    def includes_pr_commit(e):
+        if not (isinstance(e, ast.Call) and
+                isinstance(e.func, ast.Attribute) and
+                e.func.attr == 'includes_commit' and len(e.args) == 1):
+            return False
+        a = canon(f, e.args[0])
+        return a.endswith('.src_commit')
+    yes = an.branch_nodes(f, includes_pr_commit, True)
+    no = an.branch_nodes(f, includes_pr_commit, False)
+    for n in stores:
+        rep.evaluated()
+        pr = [t for t in n.ast.targets if isinstance(t, ast.Attribute)][0]
+        ok, path = c.must_pass(yes, n.id)
+        rep.check(ok and bool(yes), R, f.qname + ': the local tip replaces '
+                  'the pull request\'s commit only if it contains it',
+                  f.where(n), 'the commit of the integration pull request '
+                  'is overwritten without checking that the local branch '
+                  'contains it: an outdated clone goes on with superseded '
+                  'tips', path=c.describe_path(path))
+        tested = [x for t in an.test_nodes(f, includes_pr_commit)
+                  for x in ast.walk(t.ast) if includes_pr_commit(x)]
+        rep.check(all(canon(f, x.args[0]) == canon(f, pr) for x in tested),
+                  R, f.qname + ': the commit looked for is that of the same '
+                  'pull request', f.where(n), 'includes_commit(%s) while %s '
+                  'is overwritten' % ([src(x.args[0]) for x in tested],
+                                      src(pr)))
+    for n in raises:
+        rep.evaluated()
+        ok, path = c.must_pass(no, n.id)
+        rep.check(ok and bool(no), R, f.qname + ': stops when the local '
+                  'branch does not contain the pull request\'s commit',
+                  f.where(n), 'PullRequestSkewDetected is not tied to '
+                  'includes_commit(<PR commit>) being false',
+                  path=c.describe_path(path))
 
 
 def per_author(prog, an, rep):
